@@ -385,6 +385,7 @@ var specC21 = vstat.Spec[bCase]{
 	Gen:         genC21,
 	Check:       checkC21,
 	Inflight:    true,
+	Confirm:     true,
 }
 
 func TestC21(t *testing.T)       { vstat.Check(t, specC21) }
@@ -460,6 +461,7 @@ var specC23 = vstat.Spec[bCase]{
 	Gen:         genC23,
 	Check:       checkC23,
 	Inflight:    true,
+	Confirm:     true,
 }
 
 func TestC23(t *testing.T)       { vstat.Check(t, specC23) }
@@ -593,6 +595,7 @@ var specC23s = vstat.Spec[c23sCase]{
 	Gen:      genC23s,
 	Check:    checkC23s,
 	Inflight: true,
+	Confirm:  true,
 }
 
 func TestC23Script(t *testing.T)       { vstat.Check(t, specC23s) }
